@@ -387,6 +387,9 @@ def InlineRepeat(obj:Logic):
 def InlineConcatenateMSBF(obj:Logic):
     str = '' # "# MSBF \n"
     w = len(obj.ins)
+    if (w == 0):
+        # nothing to concatenate ('{}' is not an expression): the result is zero
+        return "assign {} = 0;\n".format(getParentWireName(obj, obj.r))
     if (w == 1):
         return "assign {} = {};\n".format(getParentWireName(obj, obj.r), getParentWireName(obj, obj.ins[0]))
 
@@ -403,6 +406,9 @@ def InlineConcatenateMSBF(obj:Logic):
 def InlineConcatenateLSBF(obj:Logic):
     str = '' # "# LSBF \n"
     w = len(obj.ins)
+    if (w == 0):
+        # nothing to concatenate ('{}' is not an expression): the result is zero
+        return "assign {} = 0;\n".format(getParentWireName(obj, obj.r))
     if (w == 1):
         return "assign {} = {};\n".format(getParentWireName(obj, obj.r), getParentWireName(obj, obj.ins[0]))
 
